@@ -103,7 +103,278 @@ func verifModel_bytealg_Equal(a, b []byte) bool {
 	return true
 }
 
-
 func verifModel_utf8_DecodeRune(p []byte) (rune, int) {
 	return verifModel_utf8_DecodeRuneInString(string(p))
+}
+
+// ---- text/template escapers ----
+
+func verifHexUpper(n byte) byte {
+	if n < 10 {
+		return '0' + n
+	}
+	return 'A' + n - 10
+}
+
+func verifModel_template_HTMLEscapeString(s string) string {
+	var out []byte
+	for i := 0; i < len(s); i++ {
+		switch s[i] {
+		case 0:
+			out = append(out, 0xEF, 0xBF, 0xBD)
+		case '"':
+			out = append(out, '&', '#', '3', '4', ';')
+		case '\'':
+			out = append(out, '&', '#', '3', '9', ';')
+		case '&':
+			out = append(out, '&', 'a', 'm', 'p', ';')
+		case '<':
+			out = append(out, '&', 'l', 't', ';')
+		case '>':
+			out = append(out, '&', 'g', 't', ';')
+		default:
+			out = append(out, s[i])
+		}
+	}
+	return string(out)
+}
+
+// verifIsPrintHook is replaced by the engine with the interval intrinsic for unicode.IsPrint;
+// natively it is the real function.
+func verifModel_template_JSEscapeString(s string) string {
+	var out []byte
+	for i := 0; i < len(s); i++ {
+		c := s[i]
+		if c < 0x80 {
+			switch {
+			case c == '\\':
+				out = append(out, '\\', '\\')
+			case c == '\'':
+				out = append(out, '\\', '\'')
+			case c == '"':
+				out = append(out, '\\', '"')
+			case c == '<':
+				out = append(out, '\\', 'u', '0', '0', '3', 'C')
+			case c == '>':
+				out = append(out, '\\', 'u', '0', '0', '3', 'E')
+			case c == '&':
+				out = append(out, '\\', 'u', '0', '0', '2', '6')
+			case c == '=':
+				out = append(out, '\\', 'u', '0', '0', '3', 'D')
+			case c < ' ':
+				out = append(out, '\\', 'u', '0', '0', verifHexUpper(c>>4), verifHexUpper(c&0x0f))
+			default:
+				out = append(out, c)
+			}
+			continue
+		}
+		r, size := verifModel_utf8_DecodeRuneInString(s[i:])
+		if verifUnicodeIsPrint(r) {
+			out = append(out, s[i:i+size]...)
+		} else {
+			out = append(out, '\\', 'u')
+			if r > 0xFFFF {
+				if r > 0xFFFFF {
+					out = append(out, verifHexUpper(byte(r>>20)&0x0f))
+				}
+				out = append(out, verifHexUpper(byte(r>>16)&0x0f))
+			}
+			out = append(out, verifHexUpper(byte(r>>12)&0x0f), verifHexUpper(byte(r>>8)&0x0f), verifHexUpper(byte(r>>4)&0x0f), verifHexUpper(byte(r)&0x0f))
+		}
+		i += size - 1
+	}
+	return string(out)
+}
+
+// ---- net/url ----
+
+func verifURLUnreserved(c byte) bool {
+	return 'a' <= c && c <= 'z' || 'A' <= c && c <= 'Z' || '0' <= c && c <= '9' || c == '-' || c == '_' || c == '.' || c == '~'
+}
+
+func verifModel_url_QueryEscape(s string) string {
+	var out []byte
+	for i := 0; i < len(s); i++ {
+		c := s[i]
+		switch {
+		case c == ' ':
+			out = append(out, '+')
+		case verifURLUnreserved(c):
+			out = append(out, c)
+		default:
+			out = append(out, '%', verifHexUpper(c>>4), verifHexUpper(c&15))
+		}
+	}
+	return string(out)
+}
+
+// ---- strings ----
+
+func verifModel_strings_ContainsAny(s, chars string) bool {
+	return verifModel_strings_IndexAny(s, chars) >= 0
+}
+
+// IndexAny for ASCII-only chars (all call sites in soy and text/template); a non-ASCII
+// byte in s can then never match.
+func verifModel_strings_IndexAny(s, chars string) int {
+	for i := 0; i < len(chars); i++ {
+		if chars[i] >= 0x80 {
+			panic("verif model: strings.IndexAny with non-ASCII chars is not modelled")
+		}
+	}
+	for i := 0; i < len(s); i++ {
+		for j := 0; j < len(chars); j++ {
+			if s[i] == chars[j] {
+				return i
+			}
+		}
+	}
+	return -1
+}
+
+func verifModel_strings_HasPrefix(s, prefix string) bool {
+	return len(s) >= len(prefix) && s[:len(prefix)] == prefix
+}
+
+func verifModel_strings_HasSuffix(s, suffix string) bool {
+	return len(s) >= len(suffix) && s[len(s)-len(suffix):] == suffix
+}
+
+func verifModel_strings_Index(s, sub string) int { return verifModel_bytealg_IndexString2(s, sub) }
+
+func verifModel_bytealg_IndexString2(a, b string) int {
+	for i := 0; i+len(b) <= len(a); i++ {
+		if a[i:i+len(b)] == b {
+			return i
+		}
+	}
+	return -1
+}
+
+func verifModel_strings_Contains(s, sub string) bool {
+	return verifModel_bytealg_IndexString2(s, sub) >= 0
+}
+
+func verifModel_strings_IndexByte(s string, c byte) int {
+	return verifModel_bytealg_IndexByteString(s, c)
+}
+
+func verifModel_strings_LastIndex(s, sub string) int {
+	for i := len(s) - len(sub); i >= 0; i-- {
+		if s[i:i+len(sub)] == sub {
+			return i
+		}
+	}
+	return -1
+}
+
+func verifModel_strings_Count(s, sub string) int {
+	if len(sub) == 0 {
+		panic("verif model: strings.Count with empty separator is not modelled")
+	}
+	n := 0
+	for i := 0; i+len(sub) <= len(s); {
+		if s[i:i+len(sub)] == sub {
+			n++
+			i += len(sub)
+		} else {
+			i++
+		}
+	}
+	return n
+}
+
+func verifIsASCIISpace(c byte) bool {
+	return c == ' ' || c == '\t' || c == '\n' || c == '\v' || c == '\f' || c == '\r'
+}
+
+// TrimSpace restricted to inputs whose non-ASCII bytes are not Unicode spaces
+// (U+0085, U+00A0, U+1680, U+2000.., U+3000): asserted by the model itself.
+func verifModel_strings_TrimSpace(s string) string {
+	for i := 0; i < len(s); i++ {
+		if s[i] >= 0x80 {
+			r, _ := verifModel_utf8_DecodeRuneInString(s[i:])
+			if r == 0x85 || r == 0xA0 || r == 0x1680 || (r >= 0x2000 && r <= 0x200a) || r == 0x2028 || r == 0x2029 || r == 0x202f || r == 0x205f || r == 0x3000 {
+				panic("verif model: strings.TrimSpace with non-ASCII space is not modelled")
+			}
+		}
+	}
+	lo, hi := 0, len(s)
+	for lo < hi && verifIsASCIISpace(s[lo]) {
+		lo++
+	}
+	for hi > lo && verifIsASCIISpace(s[hi-1]) {
+		hi--
+	}
+	return s[lo:hi]
+}
+
+func verifModel_utf8_RuneStart(b byte) bool { return b&0xC0 != 0x80 }
+
+func verifModel_utf8_RuneLen(r rune) int {
+	switch {
+	case r < 0:
+		return -1
+	case r <= 0x7F:
+		return 1
+	case r <= 0x7FF:
+		return 2
+	case 0xD800 <= r && r <= 0xDFFF:
+		return -1
+	case r <= 0xFFFF:
+		return 3
+	case r <= 0x10FFFF:
+		return 4
+	}
+	return -1
+}
+
+func verifModel_utf8_AppendRune(p []byte, r rune) []byte {
+	switch {
+	case r >= 0 && r <= 0x7F:
+		return append(p, byte(r))
+	case r >= 0 && r <= 0x7FF:
+		return append(p, 0xC0|byte(r>>6), 0x80|byte(r)&0x3F)
+	case r < 0 || r > 0x10FFFF || (0xD800 <= r && r <= 0xDFFF):
+		return append(p, 0xEF, 0xBF, 0xBD)
+	case r <= 0xFFFF:
+		return append(p, 0xE0|byte(r>>12), 0x80|byte(r>>6)&0x3F, 0x80|byte(r)&0x3F)
+	default:
+		return append(p, 0xF0|byte(r>>18), 0x80|byte(r>>12)&0x3F, 0x80|byte(r>>6)&0x3F, 0x80|byte(r)&0x3F)
+	}
+}
+
+func verifModel_utf8_EncodeRune(p []byte, r rune) int {
+	b := verifModel_utf8_AppendRune(nil, r)
+	_ = p[len(b)-1]
+	copy(p, b)
+	return len(b)
+}
+
+func verifModel_utf8_ValidString(s string) bool {
+	for i := 0; i < len(s); {
+		if s[i] < 0x80 {
+			i++
+			continue
+		}
+		r, n := verifModel_utf8_DecodeRuneInString(s[i:])
+		if r == 0xFFFD && n == 1 {
+			return false
+		}
+		i += n
+	}
+	return true
+}
+
+func verifModel_utf8_RuneCountInString(s string) int {
+	n := 0
+	for i := 0; i < len(s); n++ {
+		if s[i] < 0x80 {
+			i++
+			continue
+		}
+		_, sz := verifModel_utf8_DecodeRuneInString(s[i:])
+		i += sz
+	}
+	return n
 }
